@@ -204,7 +204,21 @@ def _run_segment(seg: Dict[str, Any], out: Dict[str, Any]) -> None:
             if seg.get("record", True):
                 api._store_var = make_recording_store(inner, ops)
         for m in seg.get("accept", ["vpkg"]):
-            dds.accept_module(m)
+            form = seg.get("accept_form", "name")
+            if form == "object":
+                # dds.accept_module(<module object>): imports the package (documented)
+                try:
+                    mobj = importlib.import_module(m)
+                except ImportError:
+                    mobj = m
+                dds.accept_module(mobj)
+            elif form == "whitelist":
+                import warnings
+                with warnings.catch_warnings():
+                    warnings.simplefilter("ignore")
+                    dds.whitelist_module(m)         # deprecated alias
+            else:
+                dds.accept_module(m)
     importlib.invalidate_caches()
     mods = {}
     for mn in seg.get("modules", []):
